@@ -143,3 +143,73 @@ func (n *Network) HoldPort(proto string, port int) (release func(), err error) {
 	s.listening = true
 	return func() { s.closed = true }, nil
 }
+
+// ---- the host's interface table -------------------------------------------------------------------
+// What net.Interfaces / InterfaceAddrs / InterfaceByName report is part of the environment the
+// library can read: under the model it is the simulated host's table (Network.Ifaces), not the
+// machine's the check happens to run on.
+
+type Interface struct {
+	Index        int
+	MTU          int
+	Name         string
+	HardwareAddr net.HardwareAddr
+	Flags        net.Flags
+	addrs        []net.Addr
+}
+
+func (i *Interface) Addrs() ([]net.Addr, error)          { return append([]net.Addr{}, i.addrs...), nil }
+func (i *Interface) MulticastAddrs() ([]net.Addr, error) { return nil, nil }
+
+// DefaultIfaces: loopback and one Ethernet interface on the subnet the simulated controllers live in.
+func DefaultIfaces() []Interface {
+	return []Interface{
+		{Index: 1, MTU: 65536, Name: "lo", Flags: net.FlagUp | net.FlagLoopback | net.FlagRunning,
+			addrs: []net.Addr{&net.IPNet{IP: net.IPv4(127, 0, 0, 1), Mask: net.CIDRMask(8, 32)}}},
+		{Index: 2, MTU: 1500, Name: "eth0", HardwareAddr: net.HardwareAddr{0x02, 0x42, 0xc0, 0xa8, 0x01, 0x02}, Flags: net.FlagUp | net.FlagBroadcast | net.FlagMulticast | net.FlagRunning,
+			addrs: []net.Addr{&net.IPNet{IP: net.IPv4(192, 168, 1, 2), Mask: net.CIDRMask(24, 32)}}},
+	}
+}
+
+func ifaces() []Interface {
+	if n := Net(); n != nil && n.Ifaces != nil {
+		return n.Ifaces
+	}
+	return DefaultIfaces()
+}
+
+func Interfaces() ([]Interface, error) { return append([]Interface{}, ifaces()...), nil }
+
+func InterfaceAddrs() ([]net.Addr, error) {
+	out := []net.Addr{}
+	for _, i := range ifaces() {
+		out = append(out, i.addrs...)
+	}
+	return out, nil
+}
+
+func InterfaceByName(name string) (*Interface, error) {
+	for _, i := range ifaces() {
+		if i.Name == name {
+			c := i
+			return &c, nil
+		}
+	}
+	return nil, &net.OpError{Op: "route", Net: "ip+net", Err: errNoSuchInterface}
+}
+
+func InterfaceByIndex(index int) (*Interface, error) {
+	for _, i := range ifaces() {
+		if i.Index == index {
+			c := i
+			return &c, nil
+		}
+	}
+	return nil, &net.OpError{Op: "route", Net: "ip+net", Err: errNoSuchInterface}
+}
+
+var errNoSuchInterface = errorString("no such network interface")
+
+type errorString string
+
+func (e errorString) Error() string { return string(e) }
